@@ -15,6 +15,7 @@ ops
   base <filehex>                     sets the file the next reads refer to
   r | t <n> | c <pos> <val>          ReadAll of the base file | truncated to n bytes | with byte pos := val
   rec <hex>|<hex>|…                  recovery over several files (callbacks' view, which files get deleted)
+  recm <m1>,<m2>,… <hex>|<hex>|…     same, files in name order with the given modification times
 -/
 open Arc.Proto Arc.C06
 
@@ -50,6 +51,13 @@ def recStr (cfg : Cfg) (files : List Bytes) : String :=
   let rs := files.map (readAll cfg)
   if rs.any (fun r => r == .panic) then "panic" else
   let outs := rs.flatMap fun r => match r with | .ok os _ => os | _ => []
+  let del := String.join (rs.map fun r => match r with | .ok _ _ => "1" | _ => "0")
+  s!"del={del}" ++ String.join (outs.map fun o => " " ++ outStr false o)
+
+def recmStr (cfg : Cfg) (files : List (Nat × Bytes)) : String :=
+  let rs := files.map fun f => readAll cfg f.2
+  if rs.any (fun r => r == .panic) then "panic" else
+  let outs := recoverDir cfg Arc.Generated.C06.mtimeComparatorStrict files
   let del := String.join (rs.map fun r => match r with | .ok _ _ => "1" | _ => "0")
   s!"del={del}" ++ String.join (outs.map fun o => " " ++ outStr false o)
 
@@ -121,6 +129,11 @@ def stepC06 (s : DS) (fs : List String) : DS × String :=
     | some pos, some v =>
       if pos < s.base.length ∧ v < 256 then (s, resStr (readAll s.cfg (s.base.set pos (UInt8.ofNat v))))
       else (s, "bad-op")
+    | _, _ => (s, "bad-op")
+  | ["recm", ms, fl] =>
+    match (ms.splitOn ",").mapM nat?, (splitBar fl).mapM unhex with
+    | some ms, some files =>
+      if ms.length = files.length then (s, recmStr s.cfg (ms.zip files)) else (s, "bad-op")
     | _, _ => (s, "bad-op")
   | ["rec", fl] =>
     match (splitBar fl).mapM unhex with
